@@ -43,6 +43,7 @@ CASE_RANDOM = st.fixed_dictionaries({
     "timeout": st.sampled_from([20, 20, 20, 6, 4, 3, 2, 1, 12]), "interrupt": st.one_of(st.none(), st.none(), st.none(), st.none(), st.sampled_from([0, 1, 2, 3, 5, 9])),
     "variant": st.sampled_from(["plain", "broken"]), "suppress": st.booleans(), "store": st.booleans(),
     "ties": st.lists(st.integers(0, 3), max_size=5),
+    "followup": st.sampled_from(["fresh-sync", "same-reactor-async"]),
 })
 
 
@@ -60,7 +61,8 @@ def s_single_fault(draw):
     the fault is the only thing that can make the outcome differ from success."""
     spec = {"setUp": draw(QUIET), "test": draw(QUIET), "tearDown": draw(QUIET), "cleanups": draw(st.lists(QUIET, max_size=3)),
             "timeout": 20 if draw(st.integers(0, 5)) else 12, "interrupt": None, "variant": draw(st.sampled_from(["plain", "broken"])),
-            "suppress": draw(st.booleans()), "store": draw(st.booleans()), "ties": draw(st.lists(st.integers(0, 3), max_size=5))}
+            "suppress": draw(st.booleans()), "store": draw(st.booleans()), "ties": draw(st.lists(st.integers(0, 3), max_size=5)),
+            "followup": draw(st.sampled_from(["fresh-sync", "same-reactor-async"]))}
     names = ["setUp", "test", "tearDown"] + ["cleanup%d" % i for i in range(len(spec["cleanups"]))] * 2
     where = draw(st.sampled_from(names))
     field, value = draw(SINGLE_FAULT)
@@ -245,6 +247,10 @@ def run_case(spec):
 
         class Followup(testtools.TestCase):
             def test_clean(self):
+                if spec.get("followup") == "same-reactor-async":
+                    d = defer.Deferred()
+                    self.reactor.callLater(0, d.callback, "fine")
+                    return d
                 return None
         observers_before = list(globalLogPublisher._observers)
         legacy_before = list(tlog.theLogPublisher.observers)
@@ -334,8 +340,12 @@ def run_case(spec):
             vs.append(V("clean", "delayed-calls-appear-later", "delayed calls were scheduled after the run had finished: %d" % len(reactor.getDelayedCalls())))
             for c_ in reactor.getDelayedCalls():
                 c_.cancel()
-        reactor2 = VReactor()
-        Followup.run_tests_with = cls.make_factory(reactor=reactor2, timeout=5)
+        if spec.get("followup") == "same-reactor-async":
+            # the same factory and the same reactor go on to run an asynchronous test
+            Followup.run_tests_with = factory
+        else:
+            reactor2 = VReactor()
+            Followup.run_tests_with = cls.make_factory(reactor=reactor2, timeout=5)
         res2 = Ext()
         Followup("test_clean").run(res2)
         outs2 = [e[0] for e in res2.events if e[0] in OUTCOMES]
